@@ -20,7 +20,8 @@ import Logrange.Generated.C04
 
 `<tree>` is prefix notation: `M <tree> <tree>` | `<leaf>`; `<leaf>` is `L <tags> <n> <ts>:<msg>{n}`.
 `<op>`: `g` Get, `n` Next, `r` Release, `b1`/`b0` SetBackward(true/false), `d` drain (Get/Next until EOF),
-`a<k>:<ts>:<msg>` append a record to the k-th source (left to right from 0) behind the mixers' back.
+`a<k>:<ts>:<msg>` append a record to the k-th source (left to right from 0) behind the mixers' back,
+`p<k>:<idx>` move the k-th source to index idx (SetPos) behind the mixers' back.
 Answer: one token per op — `g`: `<ts>:<msg>:<tags>` or `eof`, followed (when the root is a mixer) by
 `/<st><eof1><eof2>`; `n`,`r`,`b*`: `.` plus the same suffix; `d`: the events joined by `,` (or `-`) . -/
 open Go Logrange.Mixer Logrange.MixTree Driver
@@ -95,6 +96,13 @@ def runOps (it : It Leaf) : List String → List String
       match (op.drop 1).toString.splitOn ":" with
       | [k, t, m] =>
         let it' := it.modifyLeaf (Leaf.append ⟨t.toInt?.getD 0, m.toNat?.getD 0⟩) (k.toNat?.getD 0)
+        ("." ++ suffix it') :: runOps it' ops
+      | _ => "bad-op" :: runOps it ops
+    -- `p<k>:<idx>`: the k-th source is moved to index idx (`SetPos` on the journal iterator, behind the mixers' back)
+    else if op.startsWith "p" then
+      match (op.drop 1).toString.splitOn ":" with
+      | [k, i] =>
+        let it' := it.modifyLeaf (fun l => { l with idx := i.toInt?.getD 0 }) (k.toNat?.getD 0)
         ("." ++ suffix it') :: runOps it' ops
       | _ => "bad-op" :: runOps it ops
     else "bad-op" :: runOps it ops
